@@ -1578,19 +1578,26 @@ def search(ctx, broken):
         order += ['twins', 'reports']
     order += ['pairs', 'helpers', 'twins', 'histories', 'fixtures', 'thirdparty', 'shapes', 'malformed', 'reports']
     done = set()
+    import time
+    t0 = time.time()
     for name in order:
         if name in done:
             continue
         done.add(name)
+        if time.time() - t0 > 300:
+            # a change that breaks a tie without breaking the property (a refactoring) has no failing input: do not spend the
+            # whole cap on looking for one
+            ctx.note(f'search: time budget used, streams not run: {[n_ for n_ in order if n_ not in done or n_ == name]}')
+            return
         ctx.note(f'search: stream {name}')
         if name == 'helpers':
             _helpers(ctx, [], [])
         elif name == 'reports':
-            for idx in range(ctx.n(12, 250)):
+            for idx in range(min(ctx.n(12, 250), 40)):
                 res = _call(_report_case, ctx, idx)
                 if res[0] == 'ok':
                     _check_report(ctx, res[1], [], [])
-                if ctx.failures:
+                if ctx.failures or time.time() - t0 > 420:
                     return
         elif name == 'shapes':
             _shapes(ctx, [], [], [], [])
